@@ -91,7 +91,7 @@ def show_env(env):
 def standin_env_random(tier, seed):
     rnd = random.Random(seed)
     rsv = reserved()
-    sizes = [0, 1, 4, 10] if tier != 'thorough' else list(range(0, 11)) * 3
+    sizes = [0, 3, 10] if tier != 'thorough' else list(range(0, 11)) * 3
     bound = ('%d random environments of %s variables (names over [A-Za-z0-9_] of 1..20 chars incl. leading digit/underscore, lower case, reserved words; values of 0..20 pieces of Unicode, quotes, blanks, `=`, newlines, '
              'control characters, 60%% with an embedded distinctive token), each: every variable read in strict and --no-strict mode, 4 unset names (near misses of set names + random) in both modes, '
              'tuple fields named env; + 4 `let env` programs') % (len(sizes), '0..10' if tier == 'thorough' else '/'.join(map(str, sizes)))
